@@ -28,7 +28,7 @@ def confusion_matrix(
     labels = np.asarray(labels)
     preds = np.asarray(preds)
 
-    n_class = np.max(labels) + 1
+    n_class = int(np.max(labels)) + 1
 
     c_matrix = np.zeros((n_class, n_class))
     for label, pred in zip(labels, preds):
@@ -73,7 +73,7 @@ def opf_accuracy(
     labels = np.asarray(labels)
     preds = np.asarray(preds)
 
-    n_class = np.max(labels) + 1
+    n_class = int(np.max(labels)) + 1
 
     errors = np.zeros((n_class, 2))
     counts = np.bincount(labels)
@@ -109,7 +109,7 @@ def opf_accuracy_per_label(
     labels = np.asarray(labels)
     preds = np.asarray(preds)
 
-    n_class = np.max(labels) + 1
+    n_class = int(np.max(labels)) + 1
 
     errors = np.zeros(n_class)
     _, counts = np.unique(labels, return_counts=True)
